@@ -105,11 +105,27 @@ func (r *flowRun) walk(v ssa.Value) {
 		}
 	case *ssa.Alloc:
 		ss := r.f.cells.stores[v]
-		if len(ss) == 0 {
-			r.out["alloc:"+FuncDisplay(v.Parent())+"."+v.Comment] = true
-		}
+		n := len(ss)
 		for _, s := range ss {
 			r.walk(s)
+		}
+		// aggregate locals (varargs arrays, composite literals): what is stored into
+		// their elements / fields
+		if v.Referrers() != nil {
+			for _, ref := range *v.Referrers() {
+				switch a := ref.(type) {
+				case *ssa.IndexAddr:
+					for _, r2 := range *a.Referrers() {
+						if st, ok := r2.(*ssa.Store); ok && st.Addr == a {
+							n++
+							r.walk(st.Val)
+						}
+					}
+				}
+			}
+		}
+		if n == 0 {
+			r.out["alloc:"+FuncDisplay(v.Parent())+"."+v.Comment] = true
 		}
 	case *ssa.Phi:
 		for _, e := range v.Edges {
